@@ -1,5 +1,6 @@
 import Driver.Proto
 import Neutrino.Spec.CFHeaders
+import Neutrino.Spec.CFSanity
 import Neutrino.Model.VerifyFilter
 import Std.Data.HashMap
 open Neutrino.CFHeaders
@@ -317,6 +318,22 @@ def runCase : CaseFn := fun c => Id.run do
         else
           out := out.push (fail "checkpoint" "stored filter header differs from a hard-coded checkpoint")
       -- ---------- checkpoint lists (implementation observations + ground truth only) ----------
+      if ws == ["sanity"] && noZeroCp e.cpl && (ret == "-1" || ret.toNat?.isSome) then
+        -- what the real checkCFCheckptSanity returned for these lists (of whatever lengths) and the
+        -- store as dumped, against the first index at which two of the lists, or a list and the
+        -- store, differ (`sanitySpec`: stated on the lists, no accumulator, no iteration order)
+        let want := sanitySpec 1000 oldFs e.cpl
+        let wtxt := match want with | none => "-1" | some i => toString i
+        if ret != wtxt then
+          let missed := match want, ret.toNat? with
+            | some _, none => true
+            | some i, some j => decide (i < j)
+            | none, _ => false
+          let lists := " ".intercalate (e.cpl.map (fun pl => s!"{pl.1}:{pl.2}"))
+          if missed then
+            out := out.push (fail "checkpoint-disagreement-missed" s!"checkCFCheckptSanity returned {ret} although the checkpoint lists (or a list and the store) first differ at index {wtxt}; lists {lists}")
+          else
+            out := out.push (fail "checkpoint-false-disagreement" s!"checkCFCheckptSanity returned {ret} although the first index at which the checkpoint lists or the store differ is {wtxt}; lists {lists}")
       if ws == ["resolve"] then
         let bannedNow := peersOfBans d.bans
         if ret.startsWith "ok" then
